@@ -515,6 +515,7 @@ func configs(tier string) []config {
 		{Initial: 3000, Min: 1000, Max: 3000, Pacer: "recording", Kind: "twcc", Order: "max,min,initial"},
 		{Initial: 3000, Min: 1000, Max: 3000, Pacer: "recording", Kind: "twcc"},
 		{Initial: 60_000_000, Min: 60_000_000, Max: 100_000_000, Pacer: "recording", Kind: "twcc", Order: "min,max,initial"},
+		{Initial: 250_000_000, Min: 200_000_000, Max: 300_000_000, Pacer: "recording", Kind: "twcc"},
 	} {
 		c.Depth = d - 1
 		for a := 0; a < 3; a++ {
